@@ -32,6 +32,20 @@ def main():
         if args["what"] == "run":
             mod.run(ctx)
             res["stats"] = ctx.stats.to_dict()
+        elif args["what"] == "interpret":
+            cases = json.load(open(args["cases_file"]))
+            outs = []
+            for case in cases:
+                try:
+                    outs.append(mod.interpret(case))
+                except BaseException as e:
+                    if isinstance(e, (KeyboardInterrupt, SystemExit)):
+                        raise
+                    outs.append([["interpret-raises", type(e).__name__, repr(e)[:200]]])
+            # round trip through JSON so that both sides compare the same representation
+            with open(args["transcripts_file"], "w") as fh:
+                json.dump(outs, fh, default=repr)
+            res["stats"] = ctx.stats.to_dict()
         elif args["what"] == "replay":
             outs = []
             for item in args["cases"]:
